@@ -45,31 +45,31 @@ type LoopSpec struct {
 type Param struct{ Name, Type string }
 
 type FuncSpec struct {
-	Kind     SpecKind
-	Key      string // pkgpath.[Recv.]Name
-	PkgPath  string
-	Name     string
-	RecvName string // receiver type name, "" for functions
-	Header   string
-	Recv     *Param
-	TParams  string // textual type parameter list for generated wrappers, "" if none
-	Params   []Param
-	Results  []Param
-	Requires []*Clause
-	Ensures  []*Clause
-	Modifies []*Clause
-	ModAll   bool // "modifies *": anything reachable may change
-	Loops    map[int]*LoopSpec
-	Asserts  map[string][]*Clause // label -> assertions
-	Body     string               // spec func body (expression)
-	Arith    string               // "int" (default) or "bv"
-	NoOvf    bool                 // overflow obligations off (assumption recorded)
+	Kind       SpecKind
+	Key        string // pkgpath.[Recv.]Name
+	PkgPath    string
+	Name       string
+	RecvName   string // receiver type name, "" for functions
+	Header     string
+	Recv       *Param
+	TParams    string // textual type parameter list for generated wrappers, "" if none
+	Params     []Param
+	Results    []Param
+	Requires   []*Clause
+	Ensures    []*Clause
+	Modifies   []*Clause
+	ModAll     bool // "modifies *": anything reachable may change
+	Loops      map[int]*LoopSpec
+	Asserts    map[string][]*Clause // label -> assertions
+	Body       string               // spec func body (expression)
+	Arith      string               // "int" (default) or "bv"
+	NoOvf      bool                 // overflow obligations off (assumption recorded)
 	AllowPanic bool
-	Strings  bool // theory strings
-	Untrusted bool
-	Pragmas  map[string]string
-	Line     int
-	File     string
+	Strings    bool // theory strings
+	Untrusted  bool
+	Pragmas    map[string]string
+	Line       int
+	File       string
 }
 
 func (fs *FuncSpec) allParams() []Param {
@@ -426,20 +426,10 @@ type localVar struct{ Name, Type string }
 // package as ordinary functions so that go/types checks them with the code.
 // locals(fs, loopOrdinal) gives the locals in scope at that loop.
 func (pc *PkgContracts) genSpecFile(imports []string, locals func(fs *FuncSpec, loop int) []localVar) (string, error) {
-	var b strings.Builder
-	fmt.Fprintf(&b, "//go:build verif\n\npackage %s\n\n", pc.PkgName)
-	if len(imports)+len(pc.Imports) > 0 {
-		b.WriteString("import (\n")
-		seen := map[string]bool{}
-		for _, im := range append(append([]string{}, imports...), pc.Imports...) {
-			if !seen[im] {
-				seen[im] = true
-				fmt.Fprintf(&b, "\t%s\n", im)
-			}
-		}
-		b.WriteString(")\n\n")
-	}
-	b.WriteString(`func __implies(a, b bool) bool { return !a || b }
+	return pc.genSpecFileX(imports, locals, false)
+}
+
+const stubHelpers = `func __implies(a, b bool) bool { return !a || b }
 func __forall(f any) bool           { return true }
 func __exists(f any) bool           { return true }
 func __old[T any](x T) T            { return x }
@@ -452,7 +442,96 @@ func __alloc[T any](x T) bool           { return true }
 func __ite[T any](c bool, a, b T) T     { return a }
 func __seen[K comparable](k K) bool     { return true }
 
-`)
+`
+
+const executableHelpers = `var __replayBound = 4
+
+func __implies(a, b bool) bool { return !a || b }
+
+// quantifiers over integers are evaluated over [-2, __replayBound]; other domains are skipped
+func __quant(f any, forall bool) bool {
+	v := __reflect.ValueOf(f)
+	t := v.Type()
+	n := t.NumIn()
+	for i := 0; i < n; i++ {
+		k := t.In(i).Kind()
+		if k < __reflect.Int || k > __reflect.Uint64 {
+			return forall
+		}
+	}
+	args := make([]__reflect.Value, n)
+	var rec func(i int) bool
+	rec = func(i int) bool {
+		if i == n {
+			return __callQuant(v, args, forall)
+		}
+		for x := -2; x <= __replayBound; x++ {
+			a := __reflect.New(t.In(i)).Elem()
+			if a.CanInt() {
+				a.SetInt(int64(x))
+			} else {
+				if x < 0 {
+					continue
+				}
+				a.SetUint(uint64(x))
+			}
+			args[i] = a
+			r := rec(i + 1)
+			if forall && !r {
+				return false
+			}
+			if !forall && r {
+				return true
+			}
+		}
+		return forall
+	}
+	return rec(0)
+}
+// one instantiation; a panic (e.g. an index outside the guard) makes it neutral
+func __callQuant(v __reflect.Value, args []__reflect.Value, neutral bool) (r bool) {
+	defer func() {
+		if recover() != nil {
+			r = neutral
+		}
+	}()
+	return v.Call(args)[0].Bool()
+}
+func __forall(f any) bool { return __safeQuant(f, true) }
+func __exists(f any) bool { return __safeQuant(f, false) }
+func __safeQuant(f any, forall bool) (r bool) {
+	defer func() {
+		if recover() != nil {
+			r = forall
+		}
+	}()
+	return __quant(f, forall)
+}
+func __old[T any](x T) T            { return x }
+func __in[K comparable, V any](m map[K]V, k K) bool { _, ok := m[k]; return ok }
+func __fresh[T any](x T) bool       { return true }
+func __is(err error, target error) bool { return __errors.Is(err, target) }
+func __ri(n int) int                    { return 0 }
+func __seen[K comparable](k K) bool     { return true }
+func __eq[T any](a, b T) bool           { return __reflect.DeepEqual(a, b) }
+func __alloc[T any](x T) bool           { return true }
+func __ite[T any](c bool, a, b T) T     { if c { return a }; return b }
+
+`
+
+// genSpecFileX: executable=true emits helper bodies that can run (replay tests) and
+// drops unused imports so that the file compiles.
+func (pc *PkgContracts) genSpecFileX(imports []string, locals func(fs *FuncSpec, loop int) []localVar, executable bool) (string, error) {
+	var b strings.Builder
+	fmt.Fprintf(&b, "//go:build verif\n\npackage %s\n\n", pc.PkgName)
+	b.WriteString("/*IMPORTS*/\n")
+	allImports := append(append([]string{}, imports...), pc.Imports...)
+	if executable {
+		allImports = append(allImports, `__reflect "reflect"`, `__errors "errors"`)
+		b.WriteString(executableHelpers)
+	} else {
+		b.WriteString(stubHelpers)
+	}
 	for _, g := range pc.Ghosts {
 		fmt.Fprintf(&b, "var %s\n", g)
 	}
@@ -461,6 +540,9 @@ func __seen[K comparable](k K) bool     { return true }
 	}
 	emit := func(name, tparams string, params []Param, ret string, c *Clause) error {
 		expr, err := rewriteSpec(c.Text)
+		if executable {
+			expr, err = rewriteSpecExec(c.Text)
+		}
 		if err != nil {
 			return fmt.Errorf("%s:%d: %v", pc.Dir, c.Line, err)
 		}
@@ -558,5 +640,27 @@ func __seen[K comparable](k K) bool     { return true }
 			}
 		}
 	}
-	return b.String(), nil
+	body := b.String()
+	var ib strings.Builder
+	seenImp := map[string]bool{}
+	var lines []string
+	for _, im := range allImports {
+		if seenImp[im] {
+			continue
+		}
+		seenImp[im] = true
+		name := strings.Fields(im)[0]
+		if executable && !regexp.MustCompile(`(^|[^A-Za-z0-9_])`+regexp.QuoteMeta(name)+`\.`).MatchString(body) {
+			continue
+		}
+		lines = append(lines, im)
+	}
+	if len(lines) > 0 {
+		ib.WriteString("import (\n")
+		for _, l := range lines {
+			fmt.Fprintf(&ib, "\t%s\n", l)
+		}
+		ib.WriteString(")\n")
+	}
+	return strings.Replace(body, "/*IMPORTS*/\n", ib.String(), 1), nil
 }
